@@ -565,7 +565,9 @@ def process(chk, part, cases, drv, runner, shards=4):
         counts = set(s.count("[") + s.count("(") for s in impl[idx].split(";") if not s.endswith("#"))
         if len(counts) > 1:
             nontriv.add(hash((c["kind"], c["t"], c["init_drv"], tuple(c["ops"]))))
-    if tie and not [v for v in chk.violations if not v[1]]:
+    reported = chk.cov.setdefault("_tie_reported", [])
+    if tie and part not in reported and not [v for v in chk.violations if not v[1]]:
+        reported.append(part)
         idx = tie[0]
         isteps, msteps = impl[idx].split(";"), model[idx].split(";")
         st = next((i for i, (a, b) in enumerate(zip(isteps, msteps)) if a != b), min(len(isteps), len(msteps)))
@@ -577,13 +579,13 @@ def process(chk, part, cases, drv, runner, shards=4):
                                "history; the theorems no longer speak about this code"}, no_input=True)
     nsteps = sum(len(c["ops"]) for c in cases)
     chk.count(part, len(cases), nontriv, samples=[describe(cases[i], 5) for i in (0, len(cases) // 2) if i < len(cases)])
-    chk.cov["parts"][part]["api_calls"] = nsteps
-    kinds = {}
+    pc = chk.cov["parts"][part]
+    pc["api_calls"] = pc.get("api_calls", 0) + nsteps
+    kinds = pc.setdefault("op_distribution", {})
     for c in cases:
         for o in c["ops"]:
             kinds[o[0]] = kinds.get(o[0], 0) + 1
-    chk.cov["parts"][part]["op_distribution"] = kinds
-    chk.cov["parts"][part]["model_differs"] = len(tie)
+    pc["model_differs"] = pc.get("model_differs", 0) + len(tie)
 
 
 # ------------------------------------------------------------------ parts
@@ -611,7 +613,11 @@ def part_exhaustive(chk, drv, runner):
             for tup in itertools.product(alpha, repeat=L):
                 cases.append({"kind": "num", "t": t, "init_drv": init, "init_model": init, "ops": list(tup),
                               "api_built": True, "every": 1})
-    process(chk, "exhaustive", cases, drv, runner)
+                if len(cases) >= 400000:
+                    process(chk, "exhaustive", cases, drv, runner)
+                    cases = []
+    if cases:
+        process(chk, "exhaustive", cases, drv, runner)
     chk.cov["parts"]["exhaustive"]["length"] = L
     chk.cov["parts"]["exhaustive"]["alphabet"] = len(alpha)
 
@@ -637,6 +643,9 @@ def part_random(chk, drv, runner):
         prof = rng.choice([["grow"], ["grow", "shrink"], ["mixed"], ["grow", "mixed", "shrink"], ["iter"], ["grow", "iter", "shrink"],
                            ["shrink"], ["grow", "grow", "mixed"]])
         cases.append(make_case(kc, t, shape, length, prof, allow_quirks=(j % 25 == 0)))
+        if len(cases) >= 600:
+            process(chk, "random", cases, drv, runner)
+            cases = []
     # ascending / descending bulk loads (the way trees are normally built), incl. through insertAfter
     for t in (3, 4, 5):
         n = 150 if quick else 600
@@ -663,7 +672,11 @@ def part_large(chk, drv, runner):
         t = 32 if j % 2 == 0 else rng.choice([3, 7, 16])
         length = 1500 if quick else 5000
         cases.append(make_case(kc, t, None, length, ["grow", "grow", "mixed", "shrink"], allow_quirks=False, every=50))
-    process(chk, "large", cases, drv, runner, shards=4)
+        if len(cases) >= 12:
+            process(chk, "large", cases, drv, runner, shards=4)
+            cases = []
+    if cases:
+        process(chk, "large", cases, drv, runner, shards=4)
 
 
 def run(chk):
